@@ -58,13 +58,23 @@ Definition proj (n : nat) (f : N) (st : store) : cell :=
 Definition astep (n : nat) (f : N) (c : cell) (o : op) : cell :=
   match o with
   | ONew _ => if Nat.eqb (c_count c) n then mkc (S (c_count c)) true None else mkc (S (c_count c)) (c_alive c) (c_val c)
-  | OSet (TId m) g x => if Nat.eqb m n && c_alive c && (g =? f)%N then mkc (c_count c) true (Some x) else c
+  | OSet (TId m) g x =>
+    if Nat.eqb m n && c_alive c && (g =? f)%N then
+      (* field 0 keeps its first value, field 2 is write-once, the others are overwritten *)
+      match c_val c with
+      | Some _ => if (f =? 0)%N || (f =? 2)%N then c else mkc (c_count c) true (Some x)
+      | None => mkc (c_count c) true (Some x)
+      end
+    else c
   | OInval (TId m) => if Nat.eqb m n && c_alive c then mkc (c_count c) false None else c
   | _ => c
   end.
 
-Definition aget (c : cell) : res :=
-  if c_alive c then match c_val c with Some v => RVal v | None => RNotFound end else RInvalid.
+(* what a read through token n returns: its value; not-found for an unset field and for an invalidated token (the
+   token's MAC still verifies, the session row is gone); invalid for a token the store never issued *)
+Definition aget (n : nat) (c : cell) : res :=
+  if c_alive c then match c_val c with Some v => RVal v | None => RNotFound end
+  else if Nat.ltb n (c_count c) then RNotFound else RInvalid.
 
 Lemma nth_app_new {A} (l : list A) x n :
   nth_error (l ++ [x]) n = if Nat.eqb (length l) n then Some x else nth_error l n.
@@ -78,8 +88,9 @@ Proof.
 Qed.
 
 (* isolation as a refinement: one step of the store, seen through (n, f), is one step of the cell *)
-Theorem proj_step n f st o : proj n f (fst (step st o)) = astep n f (proj n f st) o.
+Theorem proj_step n f st o : f <> 1%N -> proj n f (fst (step st o)) = astep n f (proj n f st) o.
 Proof.
+  intros F1.
   destruct o as [p|t g x|t g|t|g v|g g' v|g|g|g b e|g now|]; cbn [step fst astep];
     try reflexivity;
     try (destruct (bget _ _) as [?|]; reflexivity).
@@ -90,11 +101,29 @@ Proof.
     destruct t as [|m]; [reflexivity|].
     destruct (live st (TId m)) as [[m' s]|] eqn:L; cbn [fst].
     + apply live_some in L as [E [N [A LT]]]. inversion E; subst m'.
+      destruct (set_field g x (s_fields s)) as [l r] eqn:SF. cbn [fst].
       unfold proj; cbn [st_sess c_count c_alive c_val]. rewrite upd_length.
       destruct (Nat.eqb m n) eqn:MN.
       * apply Nat.eqb_eq in MN. subst m. rewrite nth_upd_same by exact LT. rewrite N, A. cbn [s_alive s_fields andb].
-        destruct (g =? f)%N eqn:GF; [apply N.eqb_eq in GF; subst g; now rewrite fget_fset_same|].
-        apply N.eqb_neq in GF. now rewrite fget_fset_other.
+        unfold set_field in SF.
+        destruct (g =? f)%N eqn:GF.
+        -- apply N.eqb_eq in GF. subst g.
+           destruct (f =? 0)%N eqn:F0.
+           ++ apply N.eqb_eq in F0. subst f. cbn [orb].
+              destruct (fget 0 (s_fields s)) eqn:G0; inversion SF; subst; [now rewrite G0|now rewrite fget_fset_same].
+           ++ destruct (f =? 1)%N eqn:F1'; [apply N.eqb_eq in F1'; contradiction|].
+              destruct (f =? 2)%N eqn:F2.
+              ** apply N.eqb_eq in F2. subst f. cbn [orb].
+                 destruct (fget 2 (s_fields s)) eqn:G2; inversion SF; subst; [now rewrite G2|now rewrite fget_fset_same].
+              ** cbn [orb]. inversion SF; subst. rewrite fget_fset_same. destruct (fget f (s_fields s)); reflexivity.
+        -- apply N.eqb_neq in GF.
+           destruct (g =? 0)%N eqn:G0.
+           ++ apply N.eqb_eq in G0. subst g. destruct (fget 0 (s_fields s)); inversion SF; subst; [reflexivity|now rewrite fget_fset_other].
+           ++ destruct (g =? 1)%N eqn:G1.
+              ** apply N.eqb_eq in G1. subst g. destruct (fget 0 (s_fields s)); inversion SF; subst; [now rewrite fget_fset_other|reflexivity].
+              ** destruct (g =? 2)%N eqn:G2.
+                 --- apply N.eqb_eq in G2. subst g. destruct (fget 2 (s_fields s)); inversion SF; subst; [reflexivity|now rewrite fget_fset_other].
+                 --- inversion SF; subst. now rewrite fget_fset_other.
       * apply Nat.eqb_neq in MN. rewrite nth_upd_other by exact MN. reflexivity.
     + destruct (Nat.eqb m n) eqn:MN; [|reflexivity]. apply Nat.eqb_eq in MN. subst m.
       unfold live in L. unfold proj; cbn [c_alive].
@@ -112,22 +141,29 @@ Proof.
     + destruct (Nat.eqb m n) eqn:MN; [|reflexivity]. apply Nat.eqb_eq in MN. subst m.
       unfold live in L. unfold proj; cbn [c_alive].
       destruct (nth_error (st_sess st) n) as [s|]; [|reflexivity]. destruct (s_alive s); [discriminate|reflexivity].
+  - (* OReplV *)
+    destruct (bget g' (st_vouchers st)); [reflexivity|]. destruct (bget g (st_vouchers st)); reflexivity.
 Qed.
 
 (* a read through a token returns what the cell holds *)
-Theorem get_is_cell n f st : snd (step st (OGet (TId n) f)) = aget (proj n f st).
+Theorem get_is_cell n f st : snd (step st (OGet (TId n) f)) = aget n (proj n f st).
 Proof.
-  cbn. unfold live, proj, aget; cbn. destruct (nth_error (st_sess st) n) as [s|]; [|reflexivity].
-  destruct (s_alive s); reflexivity.
+  cbn [step]. unfold live, dead, proj, aget; cbn [c_alive c_val c_count].
+  destruct (nth_error (st_sess st) n) as [s|] eqn:N.
+  - destruct (s_alive s); cbn [snd negb]; [reflexivity|].
+    assert (LT : (n < length (st_sess st))%nat) by (apply nth_error_Some; congruence).
+    apply Nat.ltb_lt in LT. rewrite LT. reflexivity.
+  - cbn [snd]. apply nth_error_None in N.
+    destruct (Nat.ltb n (length (st_sess st))) eqn:E; [apply Nat.ltb_lt in E; lia|reflexivity].
 Qed.
 
 (* over whole histories, any interleaving with other tokens' operations, voucher and blob operations and restarts *)
-Theorem proj_run n f ops : forall st, proj n f (fst (run st ops)) = fold_left (astep n f) ops (proj n f st).
+Theorem proj_run n f ops : f <> 1%N -> forall st, proj n f (fst (run st ops)) = fold_left (astep n f) ops (proj n f st).
 Proof.
-  induction ops as [|o r IH]; intros st; cbn [run fold_left]; [reflexivity|].
+  intros F1. induction ops as [|o r IH]; intros st; cbn [run fold_left]; [reflexivity|].
   destruct (step st o) as [st1 x] eqn:S. destruct (run st1 r) as [st2 xs] eqn:R. cbn [fst].
   replace st2 with (fst (run st1 r)) by now rewrite R. rewrite IH. f_equal.
-  replace st1 with (fst (step st o)) by now rewrite S. apply proj_step.
+  replace st1 with (fst (step st o)) by now rewrite S. now apply proj_step.
 Qed.
 
 (* operations that do not mention the token leave its cell alone (apart from counting issued tokens) *)
@@ -145,20 +181,43 @@ Theorem astep_new_frame n f c p : (n < c_count c)%nat -> astep n f c (ONew p) = 
 Proof. intros H. cbn. destruct (Nat.eqb (c_count c) n) eqn:E; [apply Nat.eqb_eq in E; lia|reflexivity]. Qed.
 
 (* read-your-writes, and death is final *)
-Theorem cell_set_get n f c x : c_alive c = true -> aget (astep n f c (OSet (TId n) f x)) = RVal x.
-Proof. intros A. cbn. rewrite Nat.eqb_refl, A, N.eqb_refl. cbn. reflexivity. Qed.
+Theorem cell_set_get n f c x : c_alive c = true -> (f <> 0%N /\ f <> 2%N \/ c_val c = None) ->
+  aget n (astep n f c (OSet (TId n) f x)) = RVal x.
+Proof.
+  intros A H. unfold astep. rewrite Nat.eqb_refl, A, N.eqb_refl. cbn [andb].
+  destruct (c_val c) eqn:V.
+  - destruct H as [[F0 F2]|H]; [|discriminate].
+    apply N.eqb_neq in F0, F2. rewrite F0, F2. cbn [orb]. unfold aget. cbn [c_alive c_val]. reflexivity.
+  - unfold aget. cbn [c_alive c_val]. reflexivity.
+Qed.
+(* the two write-once fields: a second value written through a live token is not what is read back (device
+   certificate chain: the call even reports success) — the store is not an overwrite store for them *)
+Theorem first_write_stays n f c x y : c_alive c = true -> c_val c = Some y -> (f = 0%N \/ f = 2%N) ->
+  aget n (astep n f c (OSet (TId n) f x)) = RVal y.
+Proof.
+  intros A V H. unfold astep. rewrite Nat.eqb_refl, A, N.eqb_refl, V. cbn [andb].
+  destruct H as [->| ->]; cbn [N.eqb Pos.eqb orb]; unfold aget; rewrite A, V; reflexivity.
+Qed.
 Theorem cell_dead_stays n f c o : (n < c_count c)%nat -> c_alive c = false -> c_alive (astep n f c o) = false.
 Proof.
   intros LT D. destruct o as [p|t g x|t g|t|g v|g g' v|g|g|g b e|g now|]; cbn; auto.
   - destruct (Nat.eqb (c_count c) n) eqn:E; [apply Nat.eqb_eq in E; lia|exact D].
-  - destruct t; auto. rewrite D. now rewrite andb_false_r.
+  - destruct t; auto. rewrite D. rewrite andb_false_r. cbn. exact D.
   - destruct t; auto. rewrite D. now rewrite andb_false_r.
 Qed.
 
 (* tokens the store did not issue, and invalidated ones, grant nothing and change nothing *)
 Theorem bad_token_nothing st t : live st t = None ->
-  (forall f v, step st (OSet t f v) = (st, RInvalid)) /\ (forall f, step st (OGet t f) = (st, RInvalid)) /\ step st (OInval t) = (st, RNotFound).
-Proof. intros L. cbn. rewrite L. auto. Qed.
+  (forall f v, fst (step st (OSet t f v)) = st /\ forall x, snd (step st (OSet t f v)) <> RVal x) /\
+  (forall f, fst (step st (OGet t f)) = st /\ forall x, snd (step st (OGet t f)) <> RVal x) /\
+  fst (step st (OInval t)) = st.
+Proof.
+  intros L. cbn. rewrite L. cbn. repeat split; auto; intros; destruct (dead st t); try destruct (_ =? _)%N; discriminate.
+Qed.
+(* a token the store never issued (damaged, truncated, forged, foreign) is answered "invalid session" *)
+Theorem never_issued_invalid st : forall f v,
+  step st (OSet TBad f v) = (st, RInvalid) /\ step st (OGet TBad f) = (st, RInvalid) /\ step st (OInval TBad) = (st, RNotFound).
+Proof. intros. cbn. auto. Qed.
 Theorem unissued_is_bad st n : (length (st_sess st) <= n)%nat -> live st (TId n) = None.
 Proof. intros H. unfold live. now rewrite (proj2 (nth_error_None _ _) H). Qed.
 Theorem invalidated_is_bad st t n s : live st t = Some (n, s) -> live (fst (step st (OInval t))) t = None.
@@ -168,14 +227,20 @@ Qed.
 
 (* vouchers: after a replacement the new one is retrievable and the old one is gone; adding never overwrites *)
 Theorem replace_voucher st g g' v st' :
-  step st (OReplV g g' v) = (st', ROk) ->
-  snd (step st' (OGetV g')) = RVal v /\ (g <> g' -> snd (step st' (OGetV g)) = RNotFound) /\ (forall h, h <> g -> h <> g' -> snd (step st' (OGetV h)) = snd (step st (OGetV h))).
+  bget g (st_vouchers st) <> None -> step st (OReplV g g' v) = (st', ROk) ->
+  snd (step st' (OGetV g')) = RVal v /\ (g <> g' -> snd (step st' (OGetV g)) = RNotFound) /\
+  (forall h, h <> g -> h <> g' -> snd (step st' (OGetV h)) = snd (step st (OGetV h))).
 Proof.
-  cbn [step]. destruct (bget g' (st_vouchers st)) eqn:E; [discriminate|]. intros H; inversion H; subst; clear H. cbn [step snd fst st_vouchers].
+  intros EX. cbn [step]. destruct (bget g' (st_vouchers st)) eqn:E; [discriminate|].
+  destruct (bget g (st_vouchers st)) eqn:E2; [|contradiction].
+  intros H; inversion H; subst; clear H. cbn [step snd fst st_vouchers].
   rewrite bget_bput_same. split; [reflexivity|]. split.
   - intros NE. rewrite bget_bput_other by congruence. now rewrite bget_bdel_same.
   - intros h N1 N2. rewrite bget_bput_other by congruence. rewrite bget_bdel_other by congruence. reflexivity.
 Qed.
+(* replacing a voucher that is not stored changes nothing (and, unless both GUIDs are equal, says so) *)
+Theorem replace_missing st g g' v : bget g (st_vouchers st) = None -> fst (step st (OReplV g g' v)) = st.
+Proof. intros E. cbn [step]. destruct (bget g' (st_vouchers st)); [reflexivity|]. now rewrite E. Qed.
 Theorem add_voucher st g v st' r : step st (OAddV g v) = (st', r) ->
   (r = ROk /\ snd (step st' (OGetV g)) = RVal v) \/ (r = RErr /\ st' = st).
 Proof.
